@@ -80,9 +80,9 @@ func allSpecs() map[string]*PropSpec {
 	add(&PropSpec{
 		ID:          "C18",
 		Technique:   "guard-shape agreement of analysis entry points incl. helpers, writer/reader table of diagnostic codes vs. settings filter (decision table from switch or if-chain), control dependence of emission on declared and seen sets, SSA slicing of declaration sources",
-		Explanation: "T3: both analysis entry points run the undeclared-account/commodity checks under the same guard (len(declared set) > 0) for every transaction. T4: each warning code is gated by exactly its own settings field, the filter is applied to every analyzer diagnostic, its default is 'publish'. T9: the undeclared-commodity check visits every amount-bearing access path of a posting (amount, cost, assertion; derived from the ast type definitions). C18-ONCE: one warning per symbol and transaction (declared set and per-transaction seen set both guard the emission). C18-SOURCES: on the diagnostics path the declarations handed to the analyzer depend on the workspace's declared sets AND on the include tree loaded from the analysed content, and the workspace lookups are not conditioned on any setting. Workspace freshness rules (C12-CLEAR/REFRESH/PAIR, T1/T2) because declared sets are served from the workspace caches.",
+		Explanation: "T3: both analysis entry points run the undeclared-account/commodity checks under the same guard (len(declared set) > 0) for every transaction. T4: each warning code is gated by exactly its own settings field, the filter is applied to every analyzer diagnostic, its default is 'publish'. T9: the undeclared-commodity check visits every amount-bearing access path of a posting (amount, cost, assertion; derived from the ast type definitions). C18-ONCE: one warning per symbol and transaction (declared set and per-transaction seen set both guard the emission). C18-SOURCES: on the diagnostics path the declarations handed to the analyzer depend on the workspace's declared sets AND on the include tree loaded from the analysed content, and the workspace lookups are not conditioned on any setting. Workspace freshness rules (C12-CLEAR/REFRESH/PAIR, T1/T2) because declared sets are served from the workspace caches; C-LEAK because those sets are handed out by reference (a write into them by the analysis makes later warnings depend on which documents were analysed before); C18-SOURCES also requires the read of the document's own include tree not to be control dependent on the existence of a workspace.",
 		NotDecided:  "the declared-predicate itself (prefix / standard top-level category matching in isAccountDeclared).",
-		Rules:       append([]func(*Ctx){ruleT3, ruleT4, ruleT9("T9", [2]string{"internal/analyzer", "checkUndeclaredCommodities"}), ruleSeenOnce, ruleC18Sources}, wsFresh...),
+		Rules:       append([]func(*Ctx){ruleT3, ruleT4, ruleT9("T9", [2]string{"internal/analyzer", "checkUndeclaredCommodities"}), ruleSeenOnce, ruleC18Sources, ruleLeak}, wsFresh...),
 	})
 	add(&PropSpec{
 		ID:          "C20",
